@@ -87,7 +87,50 @@ func genTable(conc bool) func(r *prng) *plan {
 				}
 			}
 			if conc && r.chance(35) {
-				p.Ops = append(p.Ops, opSpec{K: "par", N: []int64{int64(2 + r.intn(4))}})
+				// second parameter: 0 = plain goroutines at one instant, otherwise the seed of the yield scheduler
+				ys := int64(0)
+				if r.chance(60) {
+					ys = int64(1 + r.intn(1<<30))
+				}
+				p.Ops = append(p.Ops, opSpec{K: "par", N: []int64{int64(2 + r.intn(4)), ys}})
+			}
+		}
+		if conc && r.chance(35) {
+			// race story: a full bucket with replacements, one entry one fruitless query away from removal;
+			// the fifth query report arrives together with operations that touch the same bucket from other
+			// goroutines (explicit deletion takes the table's lock itself, refresh loads seeds on its own
+			// goroutine), all under the yield scheduler
+			per := int(p.Cfg["pernode"])
+			// the story has a distance class of its own (log-distance 256) behind the ordinary pool, and
+			// three signed bootstrap records in the same bucket: every refresh offers them to the table again
+			p.Cfg["story"] = 1
+			base := nn
+			for i := 0; i < per; i++ {
+				p.Ops = append(p.Ops, opSpec{K: "addfound", N: []int64{int64(base + i), 0, 1}})
+			}
+			// the bootstrap records entered the bucket when the table was created: take them out, so that a
+			// refresh has something to put back
+			for b := 0; b < 3; b++ {
+				p.Ops = append(p.Ops, opSpec{K: "delete", N: []int64{int64(base + per + b)}})
+			}
+			for round := 0; round < 1+r.intn(3); round++ {
+				x := int64(base + r.intn(13))
+				for k := 0; k < 4; k++ {
+					p.Ops = append(p.Ops, opSpec{K: "track", N: []int64{x, 0}})
+				}
+				n := 2 + r.intn(3)
+				p.Ops = append(p.Ops, opSpec{K: "par", N: []int64{int64(n), int64(1 + r.intn(1<<30))}}, opSpec{K: "track", N: []int64{x, 0}})
+				for k := 1; k < n; k++ {
+					y := int64(base + r.intn(per))
+					switch r.intn(4) {
+					case 0:
+						p.Ops = append(p.Ops, opSpec{K: "delete", N: []int64{y}})
+					case 1, 2:
+						p.Ops = append(p.Ops, opSpec{K: "refresh"})
+					default:
+						p.Ops = append(p.Ops, opSpec{K: "addinbound", N: []int64{y, int64(r.intn(4))}})
+					}
+				}
 			}
 		}
 		p.Ops = append(p.Ops, opSpec{K: "wait", N: []int64{20000}})
@@ -264,6 +307,7 @@ type tableSim struct {
 	w      *world
 	p      *plan
 	tab    *portalwire.Table
+	ys     *ysched
 	self   *enode.Node
 	nodes  []*tnode
 	beh    map[enode.ID]int // behaviour of a node when pinged
@@ -319,8 +363,14 @@ func runTable(seed uint64, engine string, conc bool) {
 	classes := int(p.cfg("classes"))
 	per := int(p.cfg("pernode"))
 	off := rs.intn(len(tDistClasses))
+	dists := make([]int, 0, classes+1)
 	for c := 0; c < classes; c++ {
-		d := tDistClasses[(off+c*5)%len(tDistClasses)]
+		dists = append(dists, tDistClasses[(off+c*5)%len(tDistClasses)])
+	}
+	if p.cfg("story") == 1 {
+		dists = append(dists, 256)
+	}
+	for _, d := range dists {
 		for k := 0; k < per; k++ {
 			id := selfID
 			// flip bit so that logdist == d, randomise lower bits
@@ -416,11 +466,24 @@ func runTable(seed uint64, engine string, conc bool) {
 			return nil, errors.New("no record")
 		},
 	}
-	tab, err := portalwire.VerifNewTable(tr, db, portalwire.Config{DisableInitCheck: true, PingInterval: time.Duration(1+rs.intn(4)) * time.Second})
+	tcfg := portalwire.Config{DisableInitCheck: true, PingInterval: time.Duration(1+rs.intn(4)) * time.Second}
+	if p.cfg("story") == 1 {
+		for _, k := range keysAtDistance(seed, selfID, map[int]int{256: 3}, 0)[256] {
+			bn := makeENR(k, net.IP{127, 0, 0, 1}, 7000+len(tcfg.Bootnodes), 1, 0)
+			tcfg.Bootnodes = append(tcfg.Bootnodes, bn)
+			// addressable by the plan like any pool node (behind the story's class)
+			tn := &tnode{idx: len(ts.nodes), id: bn.ID(), recs: []*enode.Node{bn, bn, bn, bn}}
+			ts.nodes = append(ts.nodes, tn)
+			byID[tn.id] = tn
+		}
+	}
+	tab, err := portalwire.VerifNewTable(tr, db, tcfg)
 	if err != nil {
 		fatal2("newtable: " + err.Error())
 	}
 	ts.tab = tab
+	ts.ys = newYsched(mutexesOf(tab))
+	portalwire.VerifTableYieldHook = ts.ys.yield
 	tab.VerifSetHooks(func(b int, n *enode.Node) {
 		ts.gen[n.ID()]++
 		ts.added = append(ts.added, hookEv{b, n.ID()})
@@ -447,6 +510,29 @@ func runTable(seed uint64, engine string, conc bool) {
 				batch = append(batch, ops[j])
 			}
 			i += len(batch)
+			if op.n(1) != 0 {
+				// under the seeded yield scheduler: the operations, the table's loop and whatever it spawns
+				// interleave at every statement that runs without the table's mutex
+				var fns []func()
+				for _, bo := range batch {
+					fns = append(fns, func() { ts.exec(bo) })
+				}
+				sw, stuck := ts.ys.run(newPrng(uint64(op.n(1))), fns)
+				if stuck {
+					w.violate("C07", "op-hung", "concurrent table operations did not return under the yield scheduler")
+				}
+				w.res.Probes["ysched_switches"] += sw
+				w.res.Probes["ysched_parks"] = ts.ys.parks
+				w.res.Probes["ysched_skipped_lock_held"] = ts.ys.skips
+				synctest.Wait()
+				w.op("par %d ops under the yield scheduler", len(batch))
+				w.abstract("ypar %d", len(batch))
+				w.probe("par_batch_yield_scheduled")
+				ts.checkC07("par")
+				ts.checkAccounting(fmt.Sprintf("par#%d (yield scheduled)", ts.opIdx))
+				ts.resync()
+				continue
+			}
 			done := 0
 			for _, bo := range batch {
 				bo := bo
@@ -461,6 +547,7 @@ func runTable(seed uint64, engine string, conc bool) {
 			w.abstract("par %d", len(batch))
 			w.probe("par_batch")
 			ts.checkC07("par")
+			ts.checkAccounting(fmt.Sprintf("par#%d", ts.opIdx))
 			ts.resync()
 			continue
 		}
@@ -476,6 +563,45 @@ func runTable(seed uint64, engine string, conc bool) {
 	tab.VerifClose()
 	w.res.Nontrivial = w.res.Probes["entries_added"] > 3
 	w.finish()
+}
+
+// checkAccounting: across a batch of concurrent operations every change of bucket membership must have been
+// announced by the table's own membership events: an entry present before that is gone afterwards was
+// removed (explicit deletion, exhausted liveness credit, fifth fruitless query - each fires the event), an
+// entry present afterwards that was not there before was added. An entry that vanishes, or stays, against
+// the events was displaced or resurrected by something else (C18).
+func (ts *tableSim) checkAccounting(what string) {
+	buckets, _, _, _ := ts.tab.VerifSnapshot()
+	for bi := range buckets {
+		count := map[enode.ID]int{}
+		for _, e := range ts.model.b[bi].entries {
+			count[e.id]++
+		}
+		for _, h := range ts.added {
+			if h.bucket == bi {
+				count[h.id]++
+			}
+		}
+		for _, h := range ts.removed {
+			if h.bucket == bi {
+				count[h.id]--
+			}
+		}
+		after := map[enode.ID]int{}
+		for _, e := range buckets[bi].Entries {
+			after[e.Node.ID()]++
+		}
+		for id, c := range count {
+			if c != after[id] {
+				ts.w.violate("C18", "entry-displaced", "%s: bucket %d node %x: %d expected from the membership before plus the table's own added/removed events, %d present", what, bi, id.Bytes()[:3], c, after[id])
+			}
+		}
+		for id, c := range after {
+			if _, ok := count[id]; !ok && c != 0 {
+				ts.w.violate("C18", "entry-displaced", "%s: bucket %d node %x is present although it was not there before and no added event named it", what, bi, id.Bytes()[:3])
+			}
+		}
+	}
 }
 
 // resync adopts the table's state as the model's (after it has been validated) and clears observations.
